@@ -486,6 +486,8 @@ def run(ctx):
     cases += gen_cases(ctx.rng, nextra, sizes=(0, 1, 1, 2, 2), controllers=None, animations=None)
     # one document whose positions source has more than 2**16 elements (direct oracle only)
     cases += gen_cases(ctx.rng, 1, sizes=(1,), big=66000, controllers=False, animations=False)
+    # and one whose largest index lies between 2**15 and 2**16
+    cases += gen_cases(ctx.rng, 1, sizes=(1,), big=40000, controllers=False, animations=False)
     shipped = shipped_cases()
     ctx.log('loading %d generated documents and %d shipped files with the implementation' % (len(cases), len(shipped)))
     results = run_docs([{'xml': c['xml']} for c in cases + shipped])
